@@ -170,8 +170,8 @@ def strat_hist(draw, tier):
         sd = draw(gen.state_s(space, min_hw=2, max_hw=6, valid=True))
         return {'kind': 'generated', 'state': sd, 'chain': draw(gen.chain_s()), 'seed': draw(gen.seed_s),
                 'actions': draw(st.lists(gen.action_s, min_size=1, max_size=n))}
-    return {'kind': 'shipped', 'config': draw(st.sampled_from(envs.shipped_names())), 'seed': draw(gen.seed_s),
-            'actions': draw(st.lists(st.integers(0, 7), min_size=1, max_size=n))}
+    return {'kind': 'shipped', 'configs': draw(st.one_of(st.just(envs.shipped_names()), st.lists(st.sampled_from(envs.shipped_names()), unique=True, min_size=1, max_size=3))),
+            'seed': draw(gen.seed_s), 'actions': draw(st.lists(st.integers(0, 7), min_size=1, max_size=n))}
 
 
 def _valid_pose(ctx, sd, real_state, what):
@@ -184,6 +184,14 @@ def _valid_pose(ctx, sd, real_state, what):
 
 
 def oracle_hist(case, ctx):
+    if case['kind'] == 'shipped' and 'configs' in case:
+        for k, c in enumerate(case['configs']):
+            _hist(dict(case, config=c, seed=case['seed'] + k), ctx)
+    else:
+        _hist(case, ctx)
+
+
+def _hist(case, ctx):
     moved = 0
     blocked = 0
     if case['kind'] == 'generated':
@@ -209,11 +217,36 @@ def oracle_hist(case, ctx):
         nact = env.action_space.num_actions
         chain = [t['name'] for t in envs.shipped_data(case['config'])['transition_functions']]
         builtin = all(n in M.TRANSITIONS for n in chain)
-        acts = [env.action_space.int_to_action(ai % nact) for ai in case['actions']]
+        # "the action" is the one the configuration lists at that index, whichever interface executes it
+        data = envs.shipped_data(case['config'])
+        listed = list(data['action_space']) if 'action_space' in data else list(ACTIONS)
+        acts = [objs.action(listed[ai % nact]) for ai in case['actions']]
         if case.get('guided'):
             acts = [objs.action(a) for a in (M.plan_keydoor(sd) or [])] + acts
+        via_gym = case['seed'] % 2 == 1
+        if via_gym:
+            import gym
+            from gym_gridverse.gym import STRING_TO_YAML_FILE, GymEnvironment
+            from gym_gridverse.outer_env import OuterEnv
+            from gym_gridverse.representations.observation_representations import make_observation_representation
+            ids = {v: k for k, v in STRING_TO_YAML_FILE.items()}
+            if case['config'] in ids and case['seed'] % 4 == 1:
+                # through the registered id: the environment users actually get; "action i" is the i-th action of *its* action space
+                genv = gym.make(ids[case['config']], disable_env_checker=True).unwrapped
+                env = genv.outer_env.inner_env
+                env.set_seed(case['seed'])
+                env.reset()
+                sd = objs.canon_state(env.state)
+                listed = [x.name for x in env.action_space.actions]
+                nact = len(listed)
+                acts = [objs.action(listed[ai % nact]) for ai in case['actions']]
+            else:
+                genv = GymEnvironment(OuterEnv(env, observation_representation=make_observation_representation('default', env.observation_space)))
         for i, a in enumerate(acts):
-            r, t = guarded(ctx, f'step {a.name}', env.step, a)
+            if via_gym:
+                _, r, t, _ = guarded(ctx, f'gym step {listed.index(a.name)} ({a.name})', genv.step, listed.index(a.name))
+            else:
+                r, t = guarded(ctx, f'step {a.name}', env.step, a)
             nd = objs.canon_state(env.state)
             _valid_pose(ctx, nd, env.state, f'{case["config"]} step {i} ({a.name})')
             if builtin:
@@ -226,8 +259,8 @@ def oracle_hist(case, ctx):
                 guarded(ctx, 'reset', env.reset)
                 sd = objs.canon_state(env.state)
                 _valid_pose(ctx, sd, env.state, f'{case["config"]} reset')
-        label = 'shipped'
-    ctx.ev.case(case, nt=(moved >= 2 and blocked >= 1), classes=[label])
+        label = 'shipped_via_gym' if via_gym else 'shipped'
+    ctx.ev.case({k: v for k, v in case.items() if k != 'configs'}, nt=(moved >= 2 and blocked >= 1), classes=[label])
 
 
 CHECKS = [
@@ -238,5 +271,5 @@ CHECKS = [
           rule='grids 1x1,1x3,3x1,2x2,3x3 x every agent cell x 4 headings x 8 actions x 13 target kinds (every type and door status), target outside the grid on every side'),
     Check('histories', oracle_hist, strategy=strat_hist, examples={'quick': 80, 'thorough': 300},
           rule='valid generated initial states x random composition, and resets of the shipped configurations, x <= 40 (300 thorough) actions: agent inside the grid and on a non-blocking cell after every step',
-          required=['generated', 'shipped']),
+          required=['generated', 'shipped', 'shipped_via_gym']),
 ]
